@@ -2485,6 +2485,44 @@ fn check_case(rep: &mut Report, drv: &mut Driver, p: &Program, ident: J, tier: &
     first
 }
 
+/// A tree given in memory whose module names are not identifier-shaped
+/// (`SourceFile::read("aa.bb.roto")` keeps the stem `aa.bb`) must be rejected:
+/// module `aa.bb` and module `bb` inside `aa` would both print as `pkg.aa.bb`.
+fn invalid_name_in_memory(rep: &mut Report) {
+    let file = |name: &str, module: &str, src: &str| SourceFile {
+        name: name.to_string(),
+        module_name: module.to_string(),
+        contents: src.to_string(),
+        location_offset: 0,
+        children: Vec::new(),
+    };
+    for bad in ["aa.bb", "my-mod", "1st", ""] {
+        let spec = FileSpec::Directory(
+            file("m0/pkg.roto", "pkg", "fn main() -> i64 { 0 }\n"),
+            vec![
+                FileSpec::File(file("m1/x.roto", bad, "fn ff() -> i64 { 1 }\n")),
+                FileSpec::Directory(file("m2/aa/mod.roto", "aa", ""), vec![FileSpec::File(file("m3/aa/bb.roto", "bb", "fn ff() -> i64 { 2 }\n"))]),
+            ],
+        );
+        let rt = Runtime::new();
+        let got = catch_unwind(AssertUnwindSafe(|| match FileTree::file_spec(spec).compile(&rt) {
+            Ok(_) => "compiled".to_string(),
+            Err(e) => strip_ansi(&format!("{e}")),
+        }))
+        .unwrap_or_else(|_| format!("panic:{}", PANIC_MSG.lock().map(|g| g.clone()).unwrap_or_default()));
+        rep.evaluations += 1;
+        rep.class(format!("memory-invalid-name|{}", if got.contains("not a valid Roto identifier") { "rejected" } else { "accepted" }));
+        if !got.contains("not a valid Roto identifier") {
+            violate(
+                rep,
+                &format!("a module named `{bad}` (in memory) was not rejected: {}", got.chars().take(160).collect::<String>()),
+                "memory:invalid-module-name",
+                json!({"module_name": bad}),
+            );
+        }
+    }
+}
+
 fn run_range(seed: u64, tier: &str, from: u64, n: u64, rep: &mut Report) {
     let mut drv = Driver::spawn().expect("lean driver");
     let fixed = fixed_cases();
@@ -2492,6 +2530,9 @@ fn run_range(seed: u64, tier: &str, from: u64, n: u64, rep: &mut Report) {
         println!("START {index}");
         use std::io::Write;
         let _ = std::io::stdout().flush();
+        if index == 0 {
+            invalid_name_in_memory(rep);
+        }
         let mut p = if (index as usize) < fixed.len() { fixed[index as usize].clone() } else { gen_case(&mut drv, seed, index, tier) };
         normalize_order(&mut p);
         rep.hist("modules_per_tree", p.mods.len().to_string());
